@@ -63,7 +63,23 @@ public:
 
     constexpr auto operator=(mapping const&) noexcept -> mapping& = default;
 
-    [[nodiscard]] constexpr auto required_span_size() const noexcept -> index_type;
+    [[nodiscard]] constexpr auto required_span_size() const noexcept -> index_type
+    {
+        if constexpr (rank > 0) {
+            for (rank_type r{0}; r < rank; ++r) {
+                if (_extents.extent(r) == index_type(0)) {
+                    return index_type(0);
+                }
+            }
+            auto span = index_type(1);
+            for (rank_type r{0}; r < rank; ++r) {
+                span = static_cast<index_type>(span + (_extents.extent(r) - index_type(1)) * _strides[r]);
+            }
+            return span;
+        } else {
+            return index_type(1);
+        }
+    }
     [[nodiscard]] constexpr auto extents() const noexcept -> extents_type const& { return _extents; }
     [[nodiscard]] constexpr auto strides() const noexcept -> array<index_type, rank> { return _strides; }
     [[nodiscard]] constexpr auto stride(rank_type i) const noexcept -> index_type
